@@ -54,7 +54,10 @@ def handle (l : Line) : IO Unit := do
   let (sb, sps) := Spec.Name.decomp name
   let svals := keys.map (specVal name cfg)
   let sv := if svals.isEmpty then "-" else ",".intercalate svals
-  IO.println s!"spec {l.id} base={sb.toHex} base2={sb.toHex} parts={showHexList sps} vals={sv}"
+  let sfx := excl.map fun e =>
+    let ex := ((e.splitOn "+").filterMap Bytes.ofHex)
+    (Spec.Name.fullNameExcluding ex sb sps).toHex
+  IO.println s!"spec {l.id} base={sb.toHex} base2={sb.toHex} parts={showHexList sps} vals={sv} fx={",".intercalate sfx}"
 
 end Driver.C05
 
